@@ -140,7 +140,63 @@ def run(ctx: Ctx):
             ctx.distinct.add(lit)
         if i < 3:
             ctx.sample({"shape": rp["shape"], "parts": parts_terms, "implementation": kind})
+    for _ in range(ctx.n(120, 1500)):
+        _coded_parts(ctx, rng)
     ctx.run_cases("structured", M.IMPORTS, "", "pcase", "chk_parts", lits, descr, shard=120)
+
+
+PART_TEXTS = ["0 + C(A, contr.sum) + a", "C(A, contr.sum)", "C(A, contr.helmert):a", "A", "0 + A", "a + A:B", "C(B, contr.treatment(base='v'))",
+              "poly(a, 2)", "0 + C(A)", "C(A)", "A:B", "0 + A:B", "center(a) + A", "a", "0 + C(A, contr.helmert)", "C(A, contr.helmert)", "b + C(A, contr.sum):B"]
+
+
+def _coded_parts(ctx: Ctx, rng):
+    """parts that share factors under different codings / ranks / transforms: each part equals its separate build"""
+    import numpy as np
+    import pandas as pd
+    from formulaic import model_matrix
+    n = rng.randint(6, 10)
+    lv = {"A": ["x", "y", "z"], "B": ["u", "v"]}
+    df = pd.DataFrame({"y": [float(rng.randint(0, 9)) for _ in range(n)], "a": [float(rng.choice([-1, 0, 0.5, 2, 3, 4])) + 0.125 * k for k in range(n)],
+                       "b": [float(rng.randint(-3, 3)) for _ in range(n)],
+                       **{c: pd.Series([v[k % len(v)] for k in range(n)], dtype=object) for c, v in lv.items()}})
+    if rng.random() < 0.4:
+        df.loc[rng.randrange(n), rng.choice(["a", "b", "A"])] = None
+    parts = [rng.choice(PART_TEXTS) for _ in range(rng.randint(2, 3))]
+    f = ("y ~ " if rng.random() < 0.6 else "") + " | ".join(parts)
+    out = rng.choice(["pandas", "numpy", "sparse"])
+    rp = {"kind": "coded-parts", "formula": f, "output": out, "rows": n}
+    ctx.oracle_runs += 1
+    dr = set()
+    try:
+        mms = model_matrix(f, df, drop_rows=dr, output=out)
+    except Exception as e:
+        ctx.fail(f"model_matrix({f!r}): {type(e).__name__}: {e}", rp)
+        return
+    mats = flatten(mms)
+    texts = (["y"] if f.startswith("y ~") else []) + parts
+    if len(mats) != len(texts):
+        ctx.fail(f"{f!r} gave {len(mats)} parts for {len(texts)} written parts", rp)
+        return
+    arr = lambda m_: np.asarray(m_.toarray() if out == "sparse" else m_, dtype=float)
+    for text, m_ in zip(texts, mats):
+        if text == "y":
+            text = "0 + y"
+        try:
+            alone = model_matrix(text, df, drop_rows=set(dr), output=out)
+        except Exception as e:
+            ctx.fail(f"separate build of part {text!r} of {f!r}: {type(e).__name__}: {e}", rp)
+            continue
+        if list(alone.model_spec.column_names) != list(m_.model_spec.column_names):
+            ctx.fail(f"part {text!r} of {f!r} has columns {list(m_.model_spec.column_names)}; built alone it has {list(alone.model_spec.column_names)}", rp)
+        elif arr(alone).shape != arr(m_).shape or not np.allclose(arr(alone), arr(m_), atol=1e-12, equal_nan=True):
+            ctx.fail(f"part {text!r} of {f!r} differs in values from its separate build on the jointly kept rows", rp)
+        try:
+            again = m_.model_spec.get_model_matrix(df, drop_rows=set(dr))
+            if list(again.model_spec.column_names) != list(m_.model_spec.column_names) or not np.allclose(arr(again), arr(m_), atol=1e-12, equal_nan=True):
+                ctx.fail(f"the spec of part {text!r} of {f!r} does not regenerate the part", rp)
+        except Exception as e:
+            ctx.fail(f"the spec of part {text!r} of {f!r} cannot be re-used: {type(e).__name__}: {e}", rp)
+    ctx.count("coded-parts", f"parts={len(parts)}")
 
 
 def search(ctx: Ctx):
